@@ -44,7 +44,7 @@ theorem lookup_setState_ne (m : Orders) (c c' : Nat) (cur : Order) (s : Active) 
 theorem step_frame (m : Orders) (op : Op) (c' : Nat) (h : c' ≠ op.cid) :
     lookup (step m op) c' = lookup m c' := by
   cases op with
-  | recOpen c q p => exact lookup_insert_ne _ _ _ _ h
+  | recOpen c q p x => exact lookup_insert_ne _ _ _ _ h
   | recCancel c =>
     simp only [step, recordInFlightCancel]
     split
@@ -74,7 +74,7 @@ theorem step_refines (m : Orders) (op : Op) (c : Nat) (hx : op.exchangeStatesOnl
   by_cases hc : c = op.cid
   · subst hc
     cases op with
-    | recOpen c q p =>
+    | recOpen c q p x =>
       simp [stateOf, step, recordInFlightOpen, lookup_insert_self, Lifecycle.stepOp, Op.input, Op.cid,
         Lifecycle.step]
     | recCancel c =>
@@ -89,7 +89,7 @@ theorem step_refines (m : Orders) (op : Op) (c : Nat) (hx : op.exchangeStatesOnl
       cases hl : lookup m c with
       | none => cases ok <;> simp [hl, Lifecycle.step]
       | some cur =>
-        obtain ⟨q, p, st⟩ := cur
+        obtain ⟨q, p, st, x⟩ := cur
         cases st with
         | inFlight => cases ok <;> simp [hl, Lifecycle.step, lookup_erase_self]
         | opn o => cases ok <;> simp [hl, Lifecycle.step, lookup_erase_self]
@@ -97,7 +97,7 @@ theorem step_refines (m : Orders) (op : Op) (c : Nat) (hx : op.exchangeStatesOnl
           cases ok <;> cases x <;>
             simp [hl, Lifecycle.step, lookup_erase_self, lookup_setState_self]
     | snapshot s =>
-      obtain ⟨cid, q, p, st⟩ := s
+      obtain ⟨cid, q, p, st, sx⟩ := s
       simp only [Op.cid]
       simp only [stateOf, step, updateFromSnapshot, Lifecycle.stepOp, Op.input, ↓reduceIte]
       cases st with
@@ -112,7 +112,7 @@ theorem step_refines (m : Orders) (op : Op) (c : Nat) (hx : op.exchangeStatesOnl
           cases hl : lookup m cid with
           | none => simp [Lifecycle.step, lookup_insert_self]
           | some cur =>
-            obtain ⟨q', p', st'⟩ := cur
+            obtain ⟨q', p', st', x'⟩ := cur
             cases st' <;> simp [hl, Lifecycle.step]
         | opn o =>
           cases hl : lookup m cid with
@@ -121,7 +121,7 @@ theorem step_refines (m : Orders) (op : Op) (c : Nat) (hx : op.exchangeStatesOnl
             · simp [hz, hl, Lifecycle.step]
             · simp [hz, Lifecycle.step, lookup_insert_self]
           | some cur =>
-            obtain ⟨q', p', st'⟩ := cur
+            obtain ⟨q', p', st', x'⟩ := cur
             cases st' with
             | inFlight =>
               by_cases hz : remZero q o = true
